@@ -40,6 +40,10 @@ type Guarded struct {
 	MemLimitKB int64 // ulimit -v for workers
 	// WorkerEnv is passed to workers (e.g. corpus path).
 	WorkerEnv []string
+	// MaxConfirm bounds how many suspects are re-run alone (each costs up to 15x the horizon);
+	// 0 means all. Suspects beyond the bound are counted in UnconfirmedSuspects.
+	MaxConfirm          int
+	UnconfirmedSuspects int
 }
 
 // GuardedWorkerMain must be called early in main: when the process is a guarded worker it runs
@@ -265,7 +269,12 @@ func (g *Guarded) RunParent(r *Run, onResult func(GuardedResult)) []Suspect {
 	wg.Wait()
 	// Confirm suspects alone, three times, with five times the horizon.
 	var confirmed []Suspect
-	for _, s := range suspects {
+	for si, s := range suspects {
+		if g.MaxConfirm > 0 && si >= g.MaxConfirm {
+			g.UnconfirmedSuspects = len(suspects) - g.MaxConfirm
+			r.Cap(fmt.Sprintf("%d further suspect cases (worker death/horizon) were not re-run alone", g.UnconfirmedSuspects))
+			break
+		}
 		bad := 0
 		for k := 0; k < 3; k++ {
 			finished := false
